@@ -26,14 +26,14 @@ func init() {
 			"the Go compiler's prove pass is sound",
 			"drpc.Description implementations supply pointer-typed messages (checked for generated code by C17): reflect Elem/IsNil in the mux rely on it",
 		},
-		Rules: []Rule{
+		Rules: append([]Rule{
 			{ID: "C13.R1", Doc: "receive-path closure: every bounds check compiler-proved or a reviewed residual", Run: c13r1},
 			{ID: "C13.R2", Doc: "receive-path closure: no undischarged panic site (assertions, explicit panics, partial library calls)", Run: c13r2},
 			{ID: "C13.R3", Doc: "receive-path closure: every loop is bounded, input-consuming, or a reviewed event loop", Run: c13r3},
 			{ID: "C13.R4", Doc: "allocations sized by peer data are guarded by a limit; LimitReader bounds are constants", Run: c13r4},
 			{ID: "C13.S1", Doc: "the packet reader's buffers are bounded by the configured maximum on every cycle", Alias: "C09.R1"},
 			{ID: "C13.S2", Alias: "C08.R1"},
-		},
+		}, disciplineRules("C13", "drpcwire", "drpcmetadata", "drpchttp", "drpcstream", "drpcmanager", "drpcerr")...),
 	})
 }
 
@@ -377,6 +377,25 @@ func c13r4(c *an.Ctx) {
 					n++
 					_, isC := an.ConstInt(x.Common().Args[1])
 					c.Check(isC, fmt.Sprintf("%s | io.LimitReader bound is a constant", an.ShortFunc(fn)), c.At(in), "", "the read limit is not a constant")
+				}
+				// reading "everything" allocates what the peer sends: the reader handed to ReadAll is a limited one
+				if obj != nil && (obj.FullName() == "io.ReadAll" || obj.FullName() == "io/ioutil.ReadAll") {
+					n++
+					limited := false
+					src := an.Unwrap(x.Common().Args[0])
+					if lc, isCall := src.(*ssa.Call); isCall {
+						if o := an.CalleeObj(lc.Common()); o != nil && (o.FullName() == "io.LimitReader" || o.FullName() == "net/http.MaxBytesReader") {
+							limited = true
+						}
+					}
+					if mi, isMI := src.(*ssa.MakeInterface); isMI {
+						if lc, isCall := an.Unwrap(mi.X).(*ssa.Call); isCall {
+							if o := an.CalleeObj(lc.Common()); o != nil && (o.FullName() == "io.LimitReader" || o.FullName() == "net/http.MaxBytesReader") {
+								limited = true
+							}
+						}
+					}
+					c.Check(limited, fmt.Sprintf("%s | ReadAll reads through a LimitReader / MaxBytesReader", an.ShortFunc(fn)), c.At(in), "", "the whole body is buffered before any size test: a peer makes the gateway allocate as much as it cares to send")
 				}
 			}
 		})
